@@ -11,7 +11,7 @@ from props.common import *
 from props import hashcommon as HC
 
 ID = 'C01'
-LEAN_PROOFS = ['Proofs.C01']
+LEAN_PROOFS = ['Proofs.C01', 'Proofs.C01_Consts']
 GEN_ITEMS = ['Hashes']
 RULE = ('op lines `hash <alg> <msg> <bitlen|None>` over the ten algorithms: every byte length 0..2 blocks+2, every L mod 8 around the '
         'spill boundary (block-1-2*word bytes), block and two-block boundaries, 3-5 blocks seeded, L=None, L=0, L>8|M|, trailing data '
@@ -23,6 +23,9 @@ RULE = ('op lines `hash <alg> <msg> <bitlen|None>` over the ten algorithms: ever
         'alone; distinct lines; non-trivial = the implementation returned a digest')
 TRUSTED = ['lean/Spec/{Md4,Md5,Sha1,Sha2,MerkleDamgard,Bytes}.lean as renderings of RFC 1320, RFC 1321, FIPS 180-4 (validated in this stream against '
            'hashlib for md5/sha1/sha2 incl. 512/t and against small references for MD4/SHA-0: supporting evidence only)',
+           'NOT trusted any more: the literals of lean/Spec/Sha2Consts.lean (K256, K512, iv224/256/384/512) and SHA-1\'s K - Proofs.C01_Consts proves in the kernel that they are '
+           'the first 32/64 bits of the fractional parts of the cube/square roots of the first 80/8/9th..16th primes (primes by trial division, none skipped), '
+           'resp. floor(2^30*sqrt(2,3,5,10)); still typed from the RFCs: MD4/MD5 IVs, SHA-1 IV, MD5 sine table T, shift and index tables',
            'Model.Padding (owned by C09) and Model.Bits (C07/C08) are shared models tied by their own correspondence streams and by this one']
 ASSUMPTIONS = ['python -O (asserts stripped) is out of scope',
                'bitlen=0 together with a non-empty message is outside the property (0 < L); the code hashes the empty bit string: compared code<->model only']
@@ -336,7 +339,7 @@ LEVEL_TEXT = ('Lean 4 theorem hash_refines: for all ten algorithms, every byte s
               'bits; plus digest_length, bitlen_too_large, streamed_bitlen_too_large (update(M,bitlen=L,padding) with L > 8|M| is refused from ANY object state and leaves it untouched), final_update_refines (length fields of any size). The model is tied to the code by the translator '
               'and a boundary-directed correspondence stream that also compares the real code with the executable specification and with hashlib.')
 LEVEL_NOTE = ('Trusted: Lean kernel; axioms ⊆ {propext, Classical.choice, Quot.sound}; lean/Spec/{Bytes,MerkleDamgard,Md4,Md5,Sha1,Sha2,Sha2Consts}.lean as renderings of '
-              'the standards (K/IV tables recomputed by rule, SHA-512/t IVs by the FIPS 180-4 5.3.6 generation function in the kernel); extract.py/runcheck.py/props/C01.py; '
+              'the standards (SHA-2 K/IV tables and SHA-1 K PROVED to follow their generating rule - integer cube/square-root inequalities over the first 80 primes, Proofs.C01_Consts, so Sha2Consts.lean is not in the trusted base; SHA-512/t IVs by the FIPS 180-4 5.3.6 generation function in the kernel; MD5 T typed from RFC 1321); extract.py/runcheck.py/props/C01.py; '
               'CPython semantics are modelled (Model.Py). The theorems are about the model; the stream is what ties the model to the real code. All theorems are stated at '
               'full strength (none is _partial). Theorem list: evidence/C01.json coverage.theorems.')
 TECHNIQUE = ('Lean 4 proof: Bits<->BitVec bridge, simulation of the compression loops, padding equality via bit-list semantics of Bits, generic Merkle-Damgard '
